@@ -29,8 +29,14 @@ def showEq3 : EqRes → String
   | .ok (some _) => "ne"
   | .error _ => "PANIC"
 
-/-- the harness's `eqPolicy`: 1 = always equal, otherwise always the error E<200+id> -/
-def interpEq : EqHook := fun id _ _ => if id == 1 then none else some (.user (200 + id))
+/-- the harness's `eqPolicy`: 1 = always equal, 3 = equal exactly when the peer arrives in native form, otherwise always
+the error E<200+id> -/
+def interpEq : EqHook := fun id _ peer =>
+  if id == 1 then none
+  else if id == 3 then (match peer with
+    | .stk .native _ _ | .cnd .native _ _ _ _ => none
+    | _ => some (.user 203))
+  else some (.user (200 + id))
 
 mutual
 /-- a value of the universe that contains a NaN (reported as a tag) -/
